@@ -1451,3 +1451,228 @@ Theorem preamble_rendered_as_statement :
 Proof. exact AutoVarParse.preamble_rendered_as_statement. Qed.
 Print Assumptions preamble_rendered_as_statement.
 
+
+(* ---- whole programs (AutoVarProgram.v): induction over the statement parser. For every program parse_program accepts, every
+   script body and inline map-script body, at any nesting depth: program_autovar_leaves (every leaf with a preamble in every
+   condition: the preamble is the command command_stmt / parse_stmt return at that position of the program's token stream,
+   its name is configured, the leaf compares compared_var av c = the configured name or the argument at the configured
+   position), program_closed_conditions (for a condition closed by ')': no premise on the tokens), program_plain_leaves (every
+   other leaf is a plain form of LeafForms.v), program_switches (a switch written on a command has that command as the
+   statement just before it and switches on its result var), compiled_autovar_conditions (composition with C01: in the emitted
+   code the command runs exactly where the source semantics runs the preamble), condition_events_are_preambles_in_order (one
+   evaluation performs a subsequence of the preambles, in leaf order, each at most once). Examples.unchecked_closing_token and
+   Examples.compared_var_at_an_inline_text_position record two behaviours of the compiler outside C11's quantifier
+   (DESIGN.md boundaries B15, B16). ---- *)
+From Coq Require Import String. From Pory Require Import AutoVarProgram. Open Scope string_scope. Open Scope list_scope.
+Theorem accepted_bodies_have_origins :
+  forall (hl hd hs : N -> bool) (autovars : list (text * autovar)) (switches : list (text * text)) (ee : bool) (fc : fontcfg) 
+    (cli_font : text) (cli_maxlen : Z) (s : text) (p : program),
+  parse_program autovars switches ee (parse_format fc cli_font cli_maxlen ee) (lex hl hd hs s) = Ok p ->
+  Forall
+    (ok (cond_origin_p autovars switches ee (parse_format fc cli_font cli_maxlen ee) (lex hl hd hs s))
+       (switch_origin_p autovars switches ee (parse_format fc cli_font cli_maxlen ee) (lex hl hd hs s))) (ProgWf.bodies_of (tops p)).
+Proof. exact AutoVarProgram.accepted_bodies_have_origins. Qed.
+Print Assumptions accepted_bodies_have_origins.
+
+Theorem program_autovar_leaves :
+  forall (hl hd hs : N -> bool) (autovars : list (text * autovar)) (switches : list (text * text)) (ee : bool) (fc : fontcfg) 
+    (cli_font : text) (cli_maxlen : Z) (s : text) (p : program),
+  parse_program autovars switches ee (parse_format fc cli_font cli_maxlen ee) (lex hl hd hs s) = Ok p ->
+  forall (body : list stmt) (e : bexp) (l : leaf) (c' : cmd),
+  In body (ProgWf.bodies_of (tops p)) ->
+  cond_in e body ->
+  In l (leaves e) ->
+  lpre l = Some c' ->
+  exists
+    (ps : list patch) (c : cmd) (consts : list (text * text)) (f : nat) (script : text) (tsc : toks) (av : autovar) 
+  (impc : impdata) (ts2 : toks),
+    c' = pcmd ps c /\
+    advs (lex hl hd hs s) tsc /\
+    Datatypes.length tsc = Ast.cid c /\
+    ttype (cur tsc) = IDENT /\
+    cname c = tlit (cur tsc) /\
+    ctok c = cur tsc /\
+    assoc autovars (cname c) = Some av /\
+    command_stmt switches ee (parse_format fc cli_font cli_maxlen ee) consts f script tsc = Ok (c, impc, ts2) /\
+    (forall bs cs : list nat,
+     try_label tsc = None ->
+     parse_stmt autovars switches ee (parse_format fc cli_font cli_maxlen ee) consts (S f) script bs cs tsc = Ok ([SCmd c], impc, ts2)) /\
+    lk l = KVar /\ lline l = tline (ctok c) /\ compared_var av c = Some (loperand l).
+Proof. exact AutoVarProgram.program_autovar_leaves. Qed.
+Print Assumptions program_autovar_leaves.
+
+Theorem program_closed_conditions :
+  forall (hl hd hs : N -> bool) (autovars : list (text * autovar)) (switches : list (text * text)) (ee : bool) (fc : fontcfg) 
+    (cli_font : text) (cli_maxlen : Z) (s : text) (p : program),
+  parse_program autovars switches ee (parse_format fc cli_font cli_maxlen ee) (lex hl hd hs s) = Ok p ->
+  forall (body : list stmt) (e : bexp),
+  In body (ProgWf.bodies_of (tops p)) ->
+  cond_in e body ->
+  exists (ps : list patch) (e0 : bexp) (consts : list (text * text)) (f : nat) (script : text) (ts : toks) (imp : impdata) 
+  (ts' : toks),
+    e = pbexp ps e0 /\
+    advs (lex hl hd hs s) ts /\
+    bool_expr autovars switches ee (parse_format fc cli_font cli_maxlen ee) consts f false false script ts = Ok (e0, imp, ts') /\
+    (ttype (cur ts') = RPAREN ->
+     forall (l : leaf) (c' : cmd),
+     In l (leaves e) ->
+     lpre l = Some c' ->
+     exists (c : cmd) (f' : nat) (tsc : toks) (impc : impdata) (ts2 : toks),
+       c' = pcmd ps c /\
+       advs (lex hl hd hs s) tsc /\
+       Datatypes.length tsc = Ast.cid c /\
+       (forall bs cs : list nat,
+        parse_stmt autovars switches ee (parse_format fc cli_font cli_maxlen ee) consts (S f') script bs cs tsc = Ok ([SCmd c], impc, ts2))).
+Proof. exact AutoVarProgram.program_closed_conditions. Qed.
+Print Assumptions program_closed_conditions.
+
+Theorem program_plain_leaves :
+  forall (hl hd hs : N -> bool) (autovars : list (text * autovar)) (switches : list (text * text)) (ee : bool) (fc : fontcfg) 
+    (cli_font : text) (cli_maxlen : Z) (s : text) (p : program),
+  parse_program autovars switches ee (parse_format fc cli_font cli_maxlen ee) (lex hl hd hs s) = Ok p ->
+  forall (body : list stmt) (e : bexp) (l : leaf),
+  In body (ProgWf.bodies_of (tops p)) ->
+  cond_in e body ->
+  In l (leaves e) ->
+  lpre l = None ->
+  exists (consts : list (text * text)) (ts0 : toks) (l0 : leaf) (rest : list token) (lf : LeafForms.lform),
+    advs (lex hl hd hs s) ts0 /\
+    (l = l0 \/ l = neg_leaf l0) /\
+    LeafForms.pure_form lf /\
+    LeafForms.shape_form lf /\
+    ts0 = cur ts0 :: LeafForms.form_toks lf ++ rest /\ l0 = LeafForms.form_leaf autovars consts lf 0 /\ LeafForms.next_ok lf (cur rest).
+Proof. exact AutoVarProgram.program_plain_leaves. Qed.
+Print Assumptions program_plain_leaves.
+
+Theorem program_switches :
+  forall (hl hd hs : N -> bool) (autovars : list (text * autovar)) (switches : list (text * text)) (ee : bool) (fc : fontcfg) 
+    (cli_font : text) (cli_maxlen : Z) (s : text) (p : program),
+  parse_program autovars switches ee (parse_format fc cli_font cli_maxlen ee) (lex hl hd hs s) = Ok p ->
+  forall (body blk l1 : list stmt) (tg : nat) (v : text) (ol : Z) (cases : list (bool * text * Z * list stmt)) (l2 : list stmt),
+  In body (ProgWf.bodies_of (tops p)) ->
+  block_in blk body ->
+  blk = l1 ++ SSwitch tg v ol cases :: l2 ->
+  exists ts : toks,
+    advs (lex hl hd hs s) ts /\
+    Datatypes.length ts = tg /\
+    ttype (cur ts) = SWITCH /\
+    peekis LPAREN ts = true /\
+    (peekis VAR (adv ts) = true /\
+     (exists (consts : list (text * text)) (f : nat) (parts : list text) (tsx : toks),
+        switch_operand consts f (cur ts) (adv (adv (adv (adv ts)))) [] = Ok (parts, tsx) /\
+        v = join sp parts /\ ol = tline (cur (adv (adv (adv (adv ts)))))) \/
+     peekis VAR (adv ts) = false /\
+     (exists
+        (ps : list patch) (c : cmd) (l1' : list stmt) (consts : list (text * text)) (f : nat) (script : text) (av : autovar) 
+      (impc : impdata) (ts2 : toks),
+        l1 = l1' ++ [SCmd (pcmd ps c)] /\
+        cname c = tlit (pk 1 (adv ts)) /\
+        ctok c = pk 1 (adv ts) /\
+        Ast.cid c = Datatypes.length (adv (adv ts)) /\
+        assoc autovars (cname c) = Some av /\
+        command_stmt switches ee (parse_format fc cli_font cli_maxlen ee) consts f script (adv (adv ts)) = Ok (c, impc, ts2) /\
+        (ttype (pk 1 (adv ts)) = IDENT ->
+         try_label (adv (adv ts)) = None ->
+         forall bs cs : list nat,
+         parse_stmt autovars switches ee (parse_format fc cli_font cli_maxlen ee) consts (S f) script bs cs (adv (adv ts)) =
+         Ok ([SCmd c], impc, ts2)) /\ peekis RPAREN ts2 = true /\ compared_var av c = Some v /\ ol = tline (ctok c))).
+Proof. exact AutoVarProgram.program_switches. Qed.
+Print Assumptions program_switches.
+
+Theorem compiled_autovar_conditions :
+  forall (St : Type) (exec : cmd -> St -> stepres St) (flag_set trainer_beaten : text -> St -> bool)
+    (cmp_var cmp_var_value : text -> text -> St -> comparison) (case_matches : text -> text -> St -> bool) (hl hd hs : N -> bool)
+    (autovars : list (text * autovar)) (switches : list (text * text)) (ee : bool) (fc : fontcfg) (cli_font : text) 
+    (cli_maxlen : Z) (src : text) (p : program),
+  parse_program autovars switches ee (parse_format fc cli_font cli_maxlen ee) (lex hl hd hs src) = Ok p ->
+  forall body : list stmt,
+  In body (ProgWf.bodies_of (tops p)) ->
+  NoDup (WorkLabels.dlabs body) ->
+  forall (mp : option text) (tl : list text) (name : text) (glob optimize : bool) (w : wst) (code : list instr),
+  emit_graph body = Emitter.Ok w ->
+  emit_script mp tl name glob optimize body = Emitter.Ok code ->
+  RenderFromSource.names_okb (finals w) code = true ->
+  (Z.of_nat (Datatypes.length (finals w)) <= 10 ^ 40)%Z ->
+  ((forall (n : nat) (s : St),
+    exists m : nat,
+      run sfinal (sstep St exec flag_set trainer_beaten cmp_var cmp_var_value case_matches (fun l : text => SemTgt.fl_body l body Kstop)) n
+        (enter body Kstop) s =
+      run SemTgt.tfinal (SemTgt.tstep St exec flag_set trainer_beaten cmp_var cmp_var_value case_matches code) m (SemTgt.jump code name) s) /\
+   (forall (m : nat) (s : St),
+    exists n : nat,
+      res_le
+        (run SemTgt.tfinal (SemTgt.tstep St exec flag_set trainer_beaten cmp_var cmp_var_value case_matches code) m (SemTgt.jump code name) s)
+        (run sfinal (sstep St exec flag_set trainer_beaten cmp_var cmp_var_value case_matches (fun l : text => SemTgt.fl_body l body Kstop)) n
+           (enter body Kstop) s))) /\
+  (forall (e : bexp) (l : leaf) (c' : cmd),
+   cond_in e body ->
+   In l (leaves e) ->
+   lpre l = Some c' ->
+   (exists (ps : list patch) (c : cmd) (av : autovar),
+      c' = pcmd ps c /\ assoc autovars (cname c) = Some av /\ compared_var av c = Some (loperand l)) /\
+   (forall s : St,
+    eval_leaf St exec flag_set trainer_beaten cmp_var cmp_var_value l s =
+    match exec c' s with
+    | Continue _ s' => ([c'], s', Some (cmp_holds (lop l) ((if lstrict l then cmp_var_value else cmp_var) (loperand l) (lvalue l) s')))
+    | Stop _ => ([c'], s, None)
+    end)) /\
+  (forall (blk l1 : list stmt) (tg : nat) (v : text) (ol : Z) (cases : list (bool * text * Z * list stmt)) (l2 : list stmt),
+   block_in blk body ->
+   blk = l1 ++ SSwitch tg v ol cases :: l2 ->
+   exists ts : toks,
+     advs (lex hl hd hs src) ts /\
+     Datatypes.length ts = tg /\
+     ttype (cur ts) = SWITCH /\
+     (peekis VAR (adv ts) = false ->
+      exists (ps : list patch) (c : cmd) (l1' : list stmt) (av : autovar),
+        l1 = l1' ++ [SCmd (pcmd ps c)] /\ cname c = tlit (pk 1 (adv ts)) /\ assoc autovars (cname c) = Some av /\ compared_var av c = Some v)).
+Proof. exact AutoVarProgram.compiled_autovar_conditions. Qed.
+Print Assumptions compiled_autovar_conditions.
+
+Theorem autovar_leaf_is_command_then_plain_leaf :
+  forall (St : Type) (exec : cmd -> St -> stepres St) (flag_set trainer_beaten : text -> St -> bool)
+    (cmp_var cmp_var_value : text -> text -> St -> comparison) (l : leaf) (p : cmd) (s : St),
+  lpre l = Some p ->
+  eval_leaf St exec flag_set trainer_beaten cmp_var cmp_var_value l s =
+  match exec p s with
+  | Continue _ s' => let '(ev, s2, r) := eval_leaf St exec flag_set trainer_beaten cmp_var cmp_var_value (plain_of l) s' in ([p] ++ ev, s2, r)
+  | Stop _ => ([p], s, None)
+  end.
+Proof. exact AutoVarProgram.autovar_leaf_is_command_then_plain_leaf. Qed.
+Print Assumptions autovar_leaf_is_command_then_plain_leaf.
+
+Theorem command_statement_step :
+  forall (St : Type) (exec : cmd -> St -> stepres St) (flag_set trainer_beaten : text -> St -> bool)
+    (cmp_var cmp_var_value : text -> text -> St -> comparison) (case_matches : text -> text -> St -> bool) (find_label : text -> option sstate)
+    (c : cmd) (rest : list stmt) (k : cont) (s s' : St),
+  is_name c "end" = false ->
+  is_name c "return" = false ->
+  is_name c "goto" = false ->
+  exec c s = Continue St s' ->
+  sstep St exec flag_set trainer_beaten cmp_var cmp_var_value case_matches find_label (SRun (SCmd c) rest k) s = ([c], enter rest k, s').
+Proof. exact AutoVarProgram.command_statement_step. Qed.
+Print Assumptions command_statement_step.
+
+Theorem command_then_switch_steps :
+  forall (St : Type) (exec : cmd -> St -> stepres St) (flag_set trainer_beaten : text -> St -> bool)
+    (cmp_var cmp_var_value : text -> text -> St -> comparison) (case_matches : text -> text -> St -> bool) (find_label : text -> option sstate)
+    (c : cmd) (tg : nat) (v : text) (ol : Z) (cases : list (bool * text * Z * list stmt)) (rest : list stmt) (k : cont) 
+    (s s' : St),
+  is_name c "end" = false ->
+  is_name c "return" = false ->
+  is_name c "goto" = false ->
+  exec c s = Continue St s' ->
+  sstep St exec flag_set trainer_beaten cmp_var cmp_var_value case_matches find_label (SRun (SCmd c) (SSwitch tg v ol cases :: rest) k) s =
+  ([c], SRun (SSwitch tg v ol cases) rest k, s') /\
+  sstep St exec flag_set trainer_beaten cmp_var cmp_var_value case_matches find_label (SRun (SSwitch tg v ol cases) rest k) s' =
+  ([], enter (select_case cases (fun x : text => case_matches v x s')) (Kswitch tg (kseq rest k)), s').
+Proof. exact AutoVarProgram.command_then_switch_steps. Qed.
+Print Assumptions command_then_switch_steps.
+
+Theorem condition_events_are_preambles_in_order :
+  forall (St : Type) (exec : cmd -> St -> stepres St) (flag_set trainer_beaten : text -> St -> bool)
+    (cmp_var cmp_var_value : text -> text -> St -> comparison) (e : bexp) (s : St),
+  subseq (Datatypes.fst (Datatypes.fst (eval_bexp St exec flag_set trainer_beaten cmp_var cmp_var_value e s))) (preambles e).
+Proof. exact AutoVarProgram.condition_events_are_preambles_in_order. Qed.
+Print Assumptions condition_events_are_preambles_in_order.
+
